@@ -621,6 +621,39 @@ func init() {
 			return s
 		},
 
+		// ---- sort (insertion sort over interpreted Less/Swap) ----
+		"sort.Sort": func(m *Machine, c *frame, f *ssa.Function, a []Value) Value {
+			data := a[0].(Iface)
+			nv, _ := m.callMethod(c, data, "Len")
+			n := int(m.conc(nv, "sort length"))
+			for i := 1; i < n; i++ {
+				for j := i; j > 0; j-- {
+					lt, _ := m.callMethod(c, data, "Less", m.tt.Const(64, uint64(j)), m.tt.Const(64, uint64(j-1)))
+					if !m.branch(lt.(*Term)) {
+						break
+					}
+					m.callMethod(c, data, "Swap", m.tt.Const(64, uint64(j)), m.tt.Const(64, uint64(j-1)))
+				}
+			}
+			return nil
+		},
+		"sort.Stable": func(m *Machine, c *frame, f *ssa.Function, a []Value) Value {
+			return intrinsicTable["sort.Sort"](m, c, f, a)
+		},
+		"sort.SliceStable": sortSlice, "sort.Slice": sortSlice,
+		"sort.Strings": func(m *Machine, c *frame, f *ssa.Function, a []Value) Value {
+			s := a[0].(Slice)
+			for i := 1; i < len(s); i++ {
+				for j := i; j > 0; j-- {
+					if !m.branch(m.strCmp(token.LSS, s[j].(Str), s[j-1].(Str))) {
+						break
+					}
+					s[j], s[j-1] = s[j-1], s[j]
+				}
+			}
+			return nil
+		},
+
 		// ---- math ----
 		"math.Float64bits": func(m *Machine, c *frame, f *ssa.Function, a []Value) Value {
 			t := a[0].(*Term)
@@ -645,6 +678,23 @@ func init() {
 		},
 	}
 	registerCsmap()
+}
+
+func sortSlice(m *Machine, c *frame, f *ssa.Function, a []Value) Value {
+	s, ok := a[0].(Iface).V.(Slice)
+	if !ok {
+		m.inconclusive("sort.Slice on a non-slice")
+	}
+	for i := 1; i < len(s); i++ {
+		for j := i; j > 0; j-- {
+			lt := m.call(c, token.NoPos, a[1], []Value{m.tt.Const(64, uint64(j)), m.tt.Const(64, uint64(j-1))})
+			if !m.branch(lt.(*Term)) {
+				break
+			}
+			s[j], s[j-1] = s[j-1], s[j]
+		}
+	}
+	return nil
 }
 
 func (m *Machine) chooseNamed(name string, n int) int {
